@@ -137,7 +137,12 @@ func (it *Interp) globalAddr(g *ssa.Global) Ptr {
 	if isTeleportPkg(g.Pkg) {
 		v = it.zero(elem)
 	} else {
-		v = it.opaqueOfType(elem, "global:"+g.String())
+		if elem.String() == "error" {
+			// sentinel errors of dependencies are non-nil
+			v = IfaceV{V: &Native{Kind: "error", Data: &ErrData{registered: true, desc: g.String()}, Tag: g.String()}}
+		} else {
+			v = it.opaqueOfType(elem, "global:"+g.String())
+		}
 	}
 	p := new(Val)
 	*p = v
@@ -622,18 +627,21 @@ func (it *Interp) zeroResults(fn *ssa.Function) Val {
 
 func (it *Interp) executable(fn *ssa.Function) bool {
 	if fn.Pkg == nil {
-		// synthetic wrappers / bound methods / instantiations: decide by the declaring object
-		if fn.Synthetic != "" {
-			return true
-		}
-		return false
+		// synthetic wrappers / bound methods / instantiations
+		return fn.Synthetic != ""
 	}
 	path := fn.Pkg.Pkg.Path()
 	if strings.HasPrefix(path, teleportMod) {
 		return true
 	}
-	if execThrough[funcKey(fn)] {
+	key := funcKey(fn)
+	if execThrough[key] {
 		return true
+	}
+	for _, pre := range execThroughPrefixes {
+		if strings.HasPrefix(key, pre) {
+			return true
+		}
 	}
 	for _, pre := range execThroughPkgs {
 		if path == pre {
